@@ -21,6 +21,13 @@ Part E  systematic edits (rt/c05_sys.py): multi-valued attributes in which one v
         and free text with code points that str.splitlines treats as line boundaries (U+2028, U+2029, U+0085) or that are
         otherwise unusual non-ASCII text, in descriptions of every section, prologue / epilogue and a string attribute
         value; same checks as part B, always through the file AND the in-memory entry points.
+Part F  histories of the save target: schema X is saved under a name, then schema Y (different content) is saved under the SAME
+        name, and the name is loaded: the result must equal Y (same equality clauses as part A) - whatever the earlier save left
+        there.  X / Y: the merged and the unmerged form of each partnered library, a standard schema and a library, standard
+        schemas of different generations (sections that are empty in one and filled in the other), and edited copies of standard
+        schemas in which whole sections were emptied (rt/c05_hist.py: no unit modifiers / no units and unit classes / no value
+        classes); also X == Y (saving twice).  TSV (folder name and <name>.tsv spelling) and, for completeness, the single-file
+        formats XML and MediaWiki.
 """
 import glob
 import multiprocessing
@@ -35,6 +42,7 @@ from rt.common import Workload, main, schema
 from rt import c05_util as U
 from rt import c05_gen as G
 from rt import c05_sys as S
+from rt import c05_hist as H
 
 
 
@@ -415,6 +423,160 @@ def _work_bundled(version):
     return version, fails
 
 
+# ------------------------------------------------------------------------------------------------ part F: save over an earlier save
+
+_hist_cache = {}
+_hist_base_issues = {}
+
+
+def _hist_schema(src):
+    """src = ["bundled", version, save_merged] | ["emptied", version, which]  ->  (schema object, save_merged, skip reason or None)"""
+    from hed.schema import from_string
+    from hed.schema.hed_schema_constants import HedSectionKey as K
+    key = tuple(src)
+    if key not in _hist_cache:
+        kind, version, arg = src
+        s = schema(version)
+        if kind == "bundled":
+            _hist_cache[key] = (s, bool(arg), None)
+        else:
+            if version not in _hist_base_issues:
+                _hist_base_issues[version] = [_issue_key(i) for i in s.check_compliance()]
+            e = from_string(H.emptied(s.get_as_xml_string(save_merged=True), arg), ".xml")
+            new = [k for k in (_issue_key(i) for i in e.check_compliance()) if k not in _hist_base_issues[version]]
+            skip = None
+            if new:
+                skip = "not inside the schema rules of this generation: %s" % [(k[0], k[4][:80]) for k in new][:2]
+            elif any(len(e[getattr(K, sec)]) for sec in H.expected_empty(arg)):
+                skip = "APPLY: sections %s not empty after the edit" % H.expected_empty(arg)
+            _hist_cache[key] = (e, True, skip)
+    return _hist_cache[key]
+
+
+def _hist_target(fmt, style, tmp):
+    if fmt == "xml":
+        return os.path.join(tmp, "out", "HED_target.xml")
+    if fmt == "mediawiki":
+        return os.path.join(tmp, "out", "HED_target.mediawiki")
+    return os.path.join(tmp, "out", "HED_target.tsv" if style == "file" else "HED_target")
+
+
+def _hist_save(s, fmt, merged, target):
+    if fmt == "xml":
+        os.makedirs(os.path.dirname(target), exist_ok=True)
+        s.save_as_xml(target, save_merged=merged)
+    elif fmt == "mediawiki":
+        os.makedirs(os.path.dirname(target), exist_ok=True)
+        s.save_as_mediawiki(target, save_merged=merged)
+    else:
+        s.save_as_dataframes(target, save_merged=merged)
+
+
+def run_history_case(fmt, xsrc, ysrc, style, tmp):
+    """save X under a name, save Y under the same name, load the name: equals Y.  -> (fails, skip reason or None)"""
+    from hed.schema import load_schema
+    x, xm, xskip = _hist_schema(xsrc)
+    y, ym, yskip = _hist_schema(ysrc)
+    for sk in (xskip, yskip):
+        if sk:
+            if sk.startswith("APPLY"):
+                return [("C05.edit.applied", {}, sk, "emptied sections are empty in the loaded edit")], None
+            return [], sk
+    where = {"format": fmt, "save_merged": ym}
+    target = _hist_target(fmt, style, tmp)
+    try:
+        _hist_save(x, fmt, xm, target)
+        _hist_save(y, fmt, ym, target)
+        r = load_schema(target)
+    except Exception as e:      # noqa: BLE001
+        return [("C05.save.never_raises", where, "%s: %s" % (type(e).__name__, str(e)[:300]),
+                 "save over an earlier save and reload without an exception")], None
+    clause = "C05.rt.%s_equal" % {"xml": "xml", "mediawiki": "wiki", "tsv": "tsv"}[fmt]
+    try:
+        eq = (r == y) and (y == r)
+        d = U.diff(U.fingerprint(y), U.fingerprint(r))
+    except Exception as e:      # noqa: BLE001
+        eq, d = False, ["comparison raised %s: %s" % (type(e).__name__, str(e)[:200])]
+    if not eq or d:
+        return [(clause, where, {"__eq__": eq, "fingerprint_diff": d},
+                 "the name holds the LAST save: reloaded schema equals the schema saved last")], None
+    return [], None
+
+
+def _work_hist(item):
+    fmt, xsrc, ysrc, style = item
+    tmp = _mkdtemp()
+    t = time.time()
+    try:
+        try:
+            fails, skipped = run_history_case(fmt, xsrc, ysrc, style, tmp)
+        except Exception:      # noqa: BLE001 - fault of the workload itself
+            import traceback
+            fails, skipped = [("C05.edit.compliant", {}, "workload error: " + traceback.format_exc()[-400:], "case runs")], None
+    finally:
+        shutil.rmtree(tmp, ignore_errors=True)
+    return item, fails, skipped, time.time() - t
+
+
+def history_work(compliant, quick):
+    """[(format, X source, Y source, name style)]"""
+    std = [v for v, lib, ws in compliant if not lib]
+    part = [(v, ws) for v, lib, ws in compliant if lib and ws and ws in std]
+    pairs = []          # (X, Y) structured
+    for v, ws in part:
+        pairs.append((["bundled", v, True], ["bundled", v, False]))         # merged form, then unmerged form, same name
+        pairs.append((["bundled", v, False], ["bundled", v, True]))
+        pairs.append((["bundled", ws, True], ["bundled", v, False]))        # the standard schema, then a library
+        pairs.append((["bundled", v, False], ["bundled", ws, True]))
+    for a, b in zip(std, std[1:] + std[:1]):                                # standard generations (8.3.0 fills sections 8.2.0 leaves empty)
+        pairs.append((["bundled", a, True], ["bundled", b, True]))
+        pairs.append((["bundled", b, True], ["bundled", a, True]))
+    for k in range(len(part)):                                              # a library, then another library
+        pairs.append((["bundled", part[k][0], False], ["bundled", part[(k + 1) % len(part)][0], False]))
+    single = [p for p in pairs]                                             # the single-file formats: bundled forms only
+    bases = [v for v in std if v in ("8.3.0", "8.0.0")] or std[-1:]
+    if not quick:
+        bases = std
+    for v in bases:                                                         # an edited copy with sections emptied
+        for which in H.EMPTYINGS:
+            pairs.append((["bundled", v, True], ["emptied", v, which]))
+            pairs.append((["emptied", v, which], ["bundled", v, True]))
+        pairs.append((["emptied", v, "no_units"], ["emptied", v, "no_value_classes"]))
+        pairs.append((["emptied", v, "no_value_classes"], ["emptied", v, "no_units"]))
+    if not quick:                                                           # every ordered pair of bundled forms
+        forms = [["bundled", v, True] for v, lib, ws in compliant] + [["bundled", v, False] for v, ws in part]
+        pairs += [(a, b) for a in forms for b in forms if a != b]
+    twice = [["bundled", v, True] for v, lib, ws in compliant] + [["bundled", v, False] for v, ws in part] + \
+            [["emptied", v, which] for v in bases for which in ("no_units", "no_units_no_value_classes")]
+    if quick:
+        twice = twice[::2]
+    seen, out = set(), []
+
+    def add(fmt, x, y, style):
+        key = (fmt, tuple(x), tuple(y), style)
+        if key not in seen:
+            seen.add(key)
+            out.append((fmt, x, y, style))
+    for k, (x, y) in enumerate(pairs):
+        if quick:
+            add("tsv", x, y, ("folder", "file")[k % 2])
+        else:
+            add("tsv", x, y, "folder")
+            add("tsv", x, y, "file")
+    for k, y in enumerate(twice):
+        add("tsv", y, y, ("folder", "file")[k % 2])
+    for fmt in ("xml", "mediawiki"):
+        sel = single[::3] if quick else single
+        for x, y in sel:
+            add(fmt, x, y, "file")
+        for y in (twice[::4] if quick else twice):
+            if y[0] == "bundled":
+                add(fmt, y, y, "file")
+    # heaviest first (the merged score libraries)
+    out.sort(key=lambda it: -sum(("score" in src[1]) + (src[2] is True) for src in (it[1], it[2])))
+    return out
+
+
 # ------------------------------------------------------------------------------------------------ part C: narrow probes
 
 PROBES = [
@@ -576,7 +738,7 @@ def run(w: Workload):
 def _run(w: Workload):
     w.rule = ("A: all bundled schemas x 3 formats x {merged, unmerged} (legacy stand-alone libraries: xml/wiki). "
               "B: (compliant bundled schema, file form, case seed) -> 1-3 generated edit ops; distinct by the triple. "
-              "E: (compliant bundled schema, file form, family of systematic shapes). C: fixed probes x the 8.3-generation schemas. D: all pairs of partnered libraries with equal withStandard, "
+              "E: (compliant bundled schema, file form, family of systematic shapes). F: (format, schema saved earlier, schema saved last under the same name, name spelling). C: fixed probes x the 8.3-generation schemas. D: all pairs of partnered libraries with equal withStandard, "
               "3 spellings of the version list x 6 save entry points x {merged, unmerged}")
     allb = bundled_versions()
     versions = [v for v, _, _ in allb]
@@ -619,12 +781,14 @@ def _run(w: Workload):
             else:
                 forms = ("unmerged", "merged")
             sys_work += [(v, form, family, w.quick) for form in forms]
+    hist_work = history_work(compliant, w.quick)
     with ctx.Pool(nproc) as pool:
         res_e = pool.map_async(_work_sys, sys_work, chunksize=1)     # the longest single items first
+        res_f = pool.map_async(_work_hist, hist_work, chunksize=1)
         res_a = pool.map_async(_work_bundled, versions, chunksize=1)
         res_b = pool.map_async(_work, chunks, chunksize=1)
         res_c = pool.map_async(_work_probe, probes, chunksize=2)
-        res_a, res_b, res_c, res_e = res_a.get(), res_b.get(), res_c.get(), res_e.get()
+        res_a, res_b, res_c, res_e, res_f = res_a.get(), res_b.get(), res_c.get(), res_e.get(), res_f.get()
     # ---- part A
     n_a = 0
     for version, fails in res_a:
@@ -671,6 +835,29 @@ def _run(w: Workload):
                  "the file AND the string / dataframe entry points of all formats, merged and unmerged"
                  % ("alternating" if w.quick else "both", 2 if w.quick else 6, len(S.LINE_BOUNDARIES + S.OTHER_NONASCII),
                     " (quick: all on node descriptions and attribute values, a quarter of the other sites)" if w.quick else ""))
+    # ---- part F
+    n_f, slow_f, skipped_f, per_fmt = 0, 0.0, {}, {}
+    for (fmt, xsrc, ysrc, style), fails, skipped, dt in res_f:
+        slow_f = max(slow_f, dt)
+        inp = {"part": "F", "format": fmt, "earlier_save": xsrc, "last_save": ysrc, "name_style": style}
+        if skipped:
+            skipped_f["%s / %s" % (xsrc, ysrc)] = skipped
+            continue
+        n_f += 1
+        per_fmt[fmt] = per_fmt.get(fmt, 0) + 1
+        w.case(("F", fmt, tuple(xsrc), tuple(ysrc), style), nontrivial=True, sample=inp)
+        for clause, where, observed, expected in fails:
+            w.fail(clause, dict(where, **inp), observed, expected)
+    w.part("F: a save over an earlier save under the same name", cases=n_f, exhaustive=not w.quick, per_format=per_fmt,
+           slowest_case_s=round(slow_f, 2), skipped_not_compliant=skipped_f,
+           bound="(earlier save X, last save Y) over: merged <-> unmerged form of every partnered compliant library, its standard "
+                 "partner <-> the unmerged library, neighbouring standard generations both ways, library -> next library, %s x 4 emptied "
+                 "edits (no modifiers / no units / no value classes / neither) both ways and against each other%s; X == Y (saving "
+                 "twice) for %s; TSV under a folder name and a <name>.tsv name (%s), XML / MediaWiki on %s"
+                 % ("standard schemas 8.3.0 and 8.0.0" if w.quick else "every standard schema",
+                    "" if w.quick else ", and every ordered pair of the bundled forms (merged / unmerged)",
+                    "every second form" if w.quick else "every form", "alternating" if w.quick else "both",
+                    "every third bundled pair" if w.quick else "the bundled pairs"))
     # ---- part C
     tmp = _mkdtemp()
     try:
@@ -710,6 +897,8 @@ def _run(w: Workload):
         "descriptions or names outside the allowed character classes; attribute values containing ',' or '=' other than the probe",
         "the base text of the 'unmerged' file form of a partnered library is produced by the XML writer of /repo (no such file ships)",
         "byte-level stability of the saved text (only reload equality and the XML listing are checked)",
+        "save histories longer than two saves, an earlier save written by another tool or with extra files (prefix / external-"
+        "annotation tables), and whether files of the earlier save that the reader never opens are left behind",
     ]
 
 
@@ -736,6 +925,11 @@ def _replay(w, case, inp, tmp):
                 fails, ops, _, _ = run_sys_case(inp["schema"], inp["form"], inp["family"], False, tmp)
             for clause, where, observed, expected in fails:
                 w.fail(clause, dict(where, **{k: inp[k] for k in ("schema", "form", "family")}, part="E"), observed, expected)
+        elif inp.get("part") == "F":
+            fails, _ = run_history_case(inp["format"], inp["earlier_save"], inp["last_save"], inp["name_style"], tmp)
+            for clause, where, observed, expected in fails:
+                w.fail(clause, dict(where, **{k: inp[k] for k in ("part", "format", "earlier_save", "last_save", "name_style")}),
+                       observed, expected)
         elif inp.get("part") == "A":
             fails = []
             roundtrip(schema(inp["schema"]), formats_for(inp["schema"]), (True, False), tmp, "b", fails)
